@@ -556,6 +556,11 @@ class Engine:
       ctx.oblige('subscript.none', False, kind='definedness',
                  detail="TypeError: 'NoneType' object is not subscriptable")
       raise PathDead()
+    if isinstance(v, dict) and isinstance(idx, (str, bytes, int, bool)) and not isinstance(idx, z3.ExprRef):
+      # a module-level constant table (resolved from the source by literal evaluation)
+      if idx not in v:
+        raise RaiseSig(ExcV('KeyError'))
+      return v[idx]
     raise Unsupported(f'subscript of {v!r}')
 
   def truth(self, ctx, v):
